@@ -190,6 +190,8 @@ class ColumnBackend(PolarsSchemaBackend):
                 ),
                 check=f"coerce_dtype('{schema.dtype}')",
                 reason_code=SchemaErrorReason.DATATYPE_COERCION,
+                failure_cases=exc.failure_cases,
+                check_output=exc.parser_output,
             ) from exc
 
     @validate_scope(scope=ValidationScope.DATA)
